@@ -167,7 +167,13 @@ fn corrupt(rng: &mut Rng, cfg: &Cfg, m: &mut Value) -> (String, String) {
     match key {
         "validators" | "monitors" => {
             let mut arr: Vec<String> = target.as_array().map(|a| a.iter().map(|x| x.as_str().unwrap_or("").to_string()).collect()).unwrap_or_default();
-            match rng.below(5) {
+            match rng.below(6) {
+                5 => {
+                    // checksum-valid, but the human-readable part only BEGINS with the section's prefix and a '1'
+                    let base = if key == "validators" { &cfg.val_prefix } else { &cfg.prefix };
+                    arr.push(addr20(&format!("{base}1x"), "past-separator"));
+                    fam = "prefix-extended-past-separator".into();
+                }
                 0 if !arr.is_empty() => {
                     arr.push(arr[0].clone());
                     fam = "duplicate".into();
@@ -223,7 +229,11 @@ fn corrupt(rng: &mut Rng, cfg: &Cfg, m: &mut Value) -> (String, String) {
         }
         "oracle_address" | "treasury_address" | "staker_address" | "reward_collector_address" => {
             let base = target.as_str().map(|s| s.to_string()).unwrap_or_else(|| addr32(&cfg.prefix, "opt"));
-            if rng.chance(1, 3) {
+            if rng.chance(1, 6) {
+                let pfx = if key == "oracle_address" || key == "treasury_address" { &cfg.prefix } else { &cfg.native_prefix };
+                fam = "prefix-extended-past-separator".into();
+                *target = json!(addr20(&format!("{pfx}1q"), "past-separator"));
+            } else if rng.chance(1, 3) {
                 // valid address of another chain / section
                 let other = if key == "oracle_address" || key == "treasury_address" { addr20(&cfg.native_prefix, "x") } else { addr20(&cfg.prefix, "x") };
                 fam = "prefix-swap".into();
